@@ -50,7 +50,12 @@ func verifDrain(r *Reader, max int) (got []byte, err error) {
 func VerifH_bgzf_truncated() {
 	rd := vrt.Param("rd", 1)
 	stream, data, bounds := verifSmallStream()
-	t := vrt.Choice("cut", len(stream))
+	// the cut is chosen as (member, offset in member) so that it transfers to the real
+	// encoder's member sizes on native replay
+	mi := vrt.Choice("member", len(bounds)-1)
+	o := vrt.Choice("offset", 40)
+	vrt.Assume(bounds[mi]+o < bounds[mi+1])
+	t := bounds[mi] + o
 	cut := stream[:t]
 	r, err := NewReader(bytes.NewReader(cut), rd)
 	atBoundary := false
